@@ -32,7 +32,7 @@ from harness.common import VERIF, enc, run_driver
 from insights import collect
 from insights.core import blacklist, dr, filters, serde
 from insights.core import spec_factory as sf
-from insights.core.context import HostArchiveContext, HostContext
+from insights.core.context import HostArchiveContext, HostContext, SerializedArchiveContext
 from insights.core.exceptions import BlacklistedSpec, ContentException, NoFilterException
 from insights.core.plugins import datasource
 from insights.util.mangle import mangle_command
@@ -393,8 +393,12 @@ def run_validate(base, lay, case, tokloc):
     if case["rootform"] == "fs":
         req = base + "/" + lay["rootname"] + "/" + req.lstrip("/")
     host = case["ctx"] == "host"
-    ctx = RecHost(root=root) if host else HostArchiveContext(root=root)
-    kind = sf.RawFileProvider if case["kind"] == "raw" else sf.TextFileProvider
+    if case["ctx"] == "serialized":
+        ctx = SerializedArchiveContext(root=root)
+    else:
+        ctx = RecHost(root=root) if host else HostArchiveContext(root=root)
+    kind = {"raw": sf.RawFileProvider, "text": sf.TextFileProvider, "stext": sf.SerializedOutputProvider,
+            "sraw": sf.SerializedRawOutputProvider}[case["kind"]]
     deny = case["deny"]
     path = os.path.join(root, req.lstrip("/"))
     resolved = kloc(path)
@@ -1092,6 +1096,7 @@ def shape(req):
 def _run(chk, rng, base, n_layouts, n_val, n_fac, n_ser, n_prim):
     from harness.common import dec
     n_after = 8 if chk.tier == "quick" else 12
+    n_sval = 4 if chk.tier == "quick" else 6
     v_cases, v_impl, v_lines = [], [], []
     f_cases, f_impl, f_lines, f_info = [], [], [], []
     outn = [0]
@@ -1179,6 +1184,10 @@ def _run(chk, rng, base, n_layouts, n_val, n_fac, n_ser, n_prim):
             vcases.append({"op": "validate", "ctx": "host" if host else "archive", "rootform": rng.choice(ROOTFORMS),
                            "deny": [], "req": r, "kind": rng.choice(["text", "raw"])})
             chk.count("after-link-dotdot:" + ("resolves" if kloc(os.path.join(base, lay["rootname"], r)) else "missing"))
+        # the providers the deserializers build (SerializedOutputProvider / SerializedRawOutputProvider) over the same topologies
+        for r in gen_requests(rng, lay, n_sval, base) + gen_after_link(rng, lay, n_sval, base):
+            vcases.append({"op": "validate", "ctx": "serialized", "rootform": rng.choice(ROOTFORMS), "deny": [], "req": r,
+                           "kind": rng.choice(["stext", "stext", "sraw"])})
         fcases = []
         for _ in range(n_fac):
             host = rng.random() < 0.7
@@ -1319,6 +1328,7 @@ def _run(chk, rng, base, n_layouts, n_val, n_fac, n_ser, n_prim):
     chk.compare("primitives+mangle+deny-match", cases, impl, canon)
     chk.sample({"mangle": cases[8][1], "impl": impl[8]})
 
+    run_hydrate_stream(chk, rng, base, 60 if chk.tier == "quick" else 1200)
     run_apply_blacklist(chk, rng)
     run_collect_stream(chk, rng, 40 if chk.tier == "quick" else 300)
 
@@ -1723,6 +1733,231 @@ def run_collect_stream(chk, rng, n_cases):
     chk.sample({"collect": {k: cases[1][k] for k in ("files", "commands", "components")}, "collected": impl[1]})
 
 
+
+# --------------------------------------------------------------------------- loading a serialized archive again (hydrate)
+
+H_KINDS = ["TextFileProvider", "CommandOutputProvider", "DatasourceProvider", "RawFileProvider", "ContainerFileProvider",
+           "ContainerCommandProvider"]
+H_ROUTES = ["inside", "inside", "inside-dotdot", "inside-link", "inside-dirlink", "leaf-link-out-rel", "leaf-link-out-abs",
+            "dirlink-out-rel", "dirlink-out-abs", "dotdot-out", "dotdot-out-deep", "dotdot-after-dirlink", "chain-out",
+            "between-meta", "between-data2", "prefix-sibling-arch", "abs-recorded", "missing", "dotdot-in-and-back"]
+H_OUTSIDE = ("leaf-link-out-rel", "leaf-link-out-abs", "dirlink-out-rel", "dirlink-out-abs", "dotdot-out", "dotdot-out-deep",
+             "dotdot-after-dirlink", "chain-out", "prefix-sibling-arch")
+_HREG = []
+
+
+def hydrate_registry():
+    """registry points the meta_data documents name (sp* single, mp* multi_output); created once per process"""
+    if not _HREG:
+        pts = {"__module__": __name__}
+        for i in range(12):
+            pts["sp%d" % i] = sf.RegistryPoint()
+        for i in range(4):
+            pts["mp%d" % i] = sf.RegistryPoint(multi_output=True)
+        reg = sf.SpecSetMeta("C06HReg", (sf.SpecSet,), pts)
+        setattr(sys.modules[__name__], "C06HReg", reg)
+        _HREG.append(reg)
+    return _HREG[0]
+
+
+def h_elem(route, i, arch):
+    """(recorded relative_path, nodes to create relative to the scratch base, token-bearing file or None)
+    layout: <base>/<arch>/{insights_archive.txt, meta_data/, data/, data2/}, <base>/outside/, <base>/<arch>2/"""
+    d = arch + "/data"
+    tok = "HTK%03dX" % i
+    sub_ = ["insights_commands", "etc", "insights_containers/c0ffee/etc", "var/log"][i % 4]
+    if route == "inside":
+        return sub_ + "/f%d" % i, [["f", d + "/" + sub_ + "/f%d" % i, tok]], tok
+    if route == "inside-dotdot":
+        return "x%d/../%s/f%d" % (i, sub_, i), [["d", d + "/x%d" % i], ["f", d + "/" + sub_ + "/f%d" % i, tok]], tok
+    if route == "inside-link":
+        return "l%d" % i, [["f", d + "/" + sub_ + "/f%d" % i, tok], ["l", d + "/l%d" % i, sub_ + "/f%d" % i]], tok
+    if route == "inside-dirlink":
+        return "dl%d/f%d" % (i, i), [["f", d + "/" + sub_ + "/f%d" % i, tok], ["l", d + "/dl%d" % i, sub_]], tok
+    if route == "dotdot-in-and-back":
+        return "../data/%s/f%d" % (sub_, i), [["f", d + "/" + sub_ + "/f%d" % i, tok]], tok
+    o = "outside/s%d" % i
+    if route == "leaf-link-out-rel":
+        return "etc/l%d" % i, [["f", o, tok], ["l", d + "/etc/l%d" % i, "../../../" + o]], tok
+    if route == "leaf-link-out-abs":
+        return "l%d" % i, [["f", o, tok], ["l", d + "/l%d" % i, "$B/" + o]], tok
+    if route == "dirlink-out-rel":
+        return "dl%d/s%d" % (i, i), [["f", o, tok], ["l", d + "/dl%d" % i, "../../outside"]], tok
+    if route == "dirlink-out-abs":
+        return "dl%d/s%d" % (i, i), [["f", o, tok], ["l", d + "/dl%d" % i, "$B/outside"]], tok
+    if route == "dotdot-out":
+        return "../../" + o, [["f", o, tok]], tok
+    if route == "dotdot-out-deep":
+        return "etc/sub/../../../../" + o, [["d", d + "/etc/sub"], ["f", o, tok]], tok
+    if route == "dotdot-after-dirlink":
+        return "dl%d/../s%d" % (i, i), [["f", o, tok], ["d", "outside/sub%d" % i], ["l", d + "/dl%d" % i, "../../outside/sub%d" % i]], tok
+    if route == "chain-out":
+        return "c%d" % i, [["f", o, tok], ["l", d + "/hop%d" % i, "$B/" + o], ["l", d + "/c%d" % i, "hop%d" % i]], tok
+    if route == "between-meta":
+        return "../marker%d.txt" % i, [["f", arch + "/marker%d.txt" % i, tok]], tok
+    if route == "between-data2":
+        return "../data2/f%d" % i, [["f", arch + "/data2/f%d" % i, tok]], tok
+    if route == "prefix-sibling-arch":
+        return "../../%s2/data/f%d" % (arch, i), [["f", arch + "2/data/f%d" % i, tok]], tok
+    if route == "abs-recorded":
+        return "/$b/" + o, [["f", o, tok]], tok
+    return "nope/none%d" % i, [], None
+
+
+def gen_hydrate_case(rng):
+    arch = rng.choice(["arch", "arch", "a.d", "ins ights"])
+    specs = [{"pt": "sp0", "kind": rng.choice(H_KINDS), "elems": [{"route": "inside", "i": 0}]}]
+    kinds = list(H_KINDS)
+    rng.shuffle(kinds)
+    n = rng.randint(5, 9)
+    i = 1
+    for k in range(n):
+        route = rng.choice(H_ROUTES)
+        specs.append({"pt": "sp%d" % (k + 1), "kind": kinds[k % 6], "elems": [{"route": route, "i": i}]})
+        i += 1
+    for m in range(rng.randint(0, 3)):
+        elems = []
+        for _ in range(rng.randint(1, 3)):
+            elems.append({"route": rng.choice(H_ROUTES + ["inside", "inside"]), "i": i})
+            i += 1
+        specs.append({"pt": "mp%d" % m, "kind": rng.choice(H_KINDS), "elems": elems})
+    return {"op": "hydrate", "arch": arch, "specs": specs, "entry": rng.choice(["initialize_broker", "initialize_broker", "Hydration"]),
+            "rootvia": rng.choice(["plain", "plain", "link", "slash"])}
+
+
+def h_object(kind, rel):
+    o = {"relative_path": rel, "save_as": False, "rc": None}
+    if kind in ("CommandOutputProvider", "ContainerCommandProvider"):
+        o.update({"cmd": "/bin/true x", "args": None})
+    if kind.startswith("Container"):
+        o.update({"image": "img", "engine": "podman", "container_id": "c0ffee"})
+    if kind == "DatasourceProvider":
+        o = {"relative_path": rel, "save_as": None}
+    return o
+
+
+def run_hydrate(base, case):
+    """build the archive, load it through the real entry point; returns (impl answers per spec, model lines, index, failures)"""
+    from insights.core.hydration import initialize_broker
+    reg = hydrate_registry()
+    fails = []
+    arch = case["arch"]
+    top = os.path.join(base, arch)
+    os.makedirs(os.path.join(top, "meta_data"))
+    os.makedirs(os.path.join(top, "data"))
+    with open(os.path.join(top, "insights_archive.txt"), "w") as fh:
+        fh.write("")
+    os.symlink(arch, os.path.join(base, "archlink"))
+    tokloc, per_spec = {}, []
+    for sp in case["specs"]:
+        objs, rels = [], []
+        for e in sp["elems"]:
+            rel, nodes, tok = h_elem(e["route"], e["i"], arch)
+            rel = sub(rel, base)
+            build_layout(base, {"nodes": nodes})
+            for nd in nodes:
+                if nd[0] == "f":
+                    tokloc[nd[2]] = kloc(os.path.join(base, nd[1]))
+            objs.append({"type": "insights.core.spec_factory." + sp["kind"], "object": h_object(sp["kind"], rel)})
+            rels.append(rel)
+        name = "%s.C06HReg.%s" % (__name__, sp["pt"])
+        doc = {"name": name, "exec_time": 0.01, "ser_time": 0.01, "errors": [],
+               "results": objs if sp["pt"].startswith("mp") else objs[0]}
+        with open(os.path.join(top, "meta_data", name + ".json"), "w") as fh:
+            json.dump(doc, fh)
+        per_spec.append((sp, rels))
+    given = {"plain": top, "link": os.path.join(base, "archlink"), "slash": top + "/"}[case["rootvia"]]
+    audit(False)
+    err = None
+    try:
+        if case["entry"] == "initialize_broker":
+            ctx, broker = initialize_broker(given)
+        else:
+            ctx = SerializedArchiveContext(root=given)
+            broker = serde.Hydration(root=given, ctx=ctx).hydrate()
+    except Exception as ex:
+        err = repr(ex)
+        ctx, broker = None, dr.Broker()
+    ctxroot = ctx.root if ctx is not None else given
+    rootloc = kloc(ctxroot)
+    data_root = os.path.join(ctxroot, "data")
+    impl, lines, idx = [], [], []
+    for si, (sp, rels) in enumerate(per_spec):
+        comp = getattr(reg, sp["pt"])
+        val = broker.get(comp) if comp in broker else None
+        provs = val if isinstance(val, list) else ([val] if val is not None else [])
+        parts = []
+        for p in provs:
+            try:
+                content = p.content
+            except Exception:
+                content = None
+            parts.append(p.path)
+            # ORACLE (A): nothing from outside the context root, whatever the route
+            loc = kloc(p.path)
+            if rootloc is not None and loc is not None and not inside(loc, rootloc):
+                fails.append("hydrate: %s for %s resolves to %r, outside the archive root %r (relative_path %r)"
+                             % (type(p).__name__, sp["kind"], loc, rootloc, p.relative_path))
+            for t in set(tokens_in(content)):
+                tl = tokloc.get(t)
+                if tl is not None and rootloc is not None and not inside(tl, rootloc):
+                    fails.append("hydrate: %s for %s yielded the content of %r, outside the archive root %r (relative_path %r)"
+                                 % (type(p).__name__, sp["kind"], tl, rootloc, p.relative_path))
+        impl.append("ok|" + "|".join(parts) if provs else "dropped")
+        for rel in rels:
+            path = os.path.join(data_root, rel.lstrip("/"))
+            resolved = kloc(path)
+            lines.append("\t".join(["mkfile", "0", enc(data_root), enc(rel), "1" if resolved is not None else "0",
+                                    enc(kloc(data_root) or ""), enc(resolved or ""), "1" if os.access(path, os.R_OK) else "0", "_"]))
+            idx.append(si)
+    return impl, lines, idx, fails, err
+
+
+def run_hydrate_stream(chk, rng, base, n_cases):
+    cases = [{"op": "hydrate", "arch": "arch", "entry": "initialize_broker", "rootvia": "plain",
+              "specs": [{"pt": "sp0", "kind": "TextFileProvider", "elems": [{"route": "inside", "i": 0}]}] +
+                       [{"pt": "sp%d" % (j + 1), "kind": H_KINDS[j % 6], "elems": [{"route": r, "i": j + 1}]}
+                        for j, r in enumerate(["leaf-link-out-rel", "dirlink-out-rel", "dotdot-out", "dotdot-after-dirlink",
+                                               "leaf-link-out-abs", "prefix-sibling-arch", "dotdot-out-deep", "chain-out"])]}]
+    cases += [gen_hydrate_case(rng) for _ in range(n_cases)]
+    all_lines, spans, impls, flat_cases = [], [], [], []
+    for case in cases:
+        wipe_layout(base)
+        impl, lines, idx, fails, err = run_hydrate(base, case)
+        for desc in fails:
+            chk.failure(desc, case)
+        if err:
+            chk.count("hydrate:entry-error")
+        spans.append((len(all_lines), idx))
+        all_lines += lines
+        impls.append(impl)
+        for sp in case["specs"]:
+            for e in sp["elems"]:
+                chk.count("hydrate-route:" + e["route"])
+            chk.count("hydrate-kind:" + sp["kind"])
+    wipe_layout(base)
+    model = run_driver("C06", all_lines)
+    impl_flat, model_flat = [], []
+    for case, impl, (start, idx) in zip(cases, impls, spans):
+        per = {}
+        for j, si in enumerate(idx):
+            per.setdefault(si, []).append(canon_mkfile(model[start + j]))
+        for si, sp in enumerate(case["specs"]):
+            ms = per.get(si, [])
+            m = ("ok|" + "|".join(x[3:] for x in ms)) if ms and all(x.startswith("ok ") for x in ms) else "dropped"
+            impl_flat.append(impl[si])
+            model_flat.append(m)
+            flat_cases.append(dict(case, spec=sp["pt"]))
+            routes = tuple(e["route"] for e in sp["elems"])
+            chk.case(("hydrate", sp["kind"], routes, impl[si].split("|")[0], case["entry"], case["rootvia"]), nontrivial=True)
+            chk.count("hydrate:" + impl[si].split("|")[0])
+            if sp["pt"] == "sp0" and impl[si] == "dropped":
+                chk.tie_broken("hydrate-control", "the control spec (a plain file inside data/) was not loaded", case)
+    chk.compare("hydrate(Serialized* providers per spec)", flat_cases, impl_flat, model_flat)
+    chk.sample({"hydrate": {"entry": cases[1]["entry"], "specs": [(sp["kind"], [e["route"] for e in sp["elems"]]) for sp in cases[1]["specs"]]},
+                "loaded": [x.split("|")[0] for x in impls[1]]})
+
+
 # --------------------------------------------------------------------------- replay
 
 def replay(data):
@@ -1754,6 +1989,11 @@ def replay(data):
             os.makedirs(out)
             ans, line, fails = run_ser(base, c, out)
             print("implementation:", ans)
+        elif op == "hydrate":
+            impl, lines, idx, hf, err = run_hydrate(base, c)
+            for sp, a in zip(c["specs"], impl):
+                print(sp["pt"], sp["kind"], [e["route"] for e in sp["elems"]], "->", a.replace(base, "$B"))
+            fails = [(d, c, None) for d in hf]
         elif op == "collect":
             base_case = {"op": "collect", "n": 0, "files": [], "commands": [], "components": [], "in_manifest": False}
             obs = run_collect_cases([base_case, c])
